@@ -66,3 +66,18 @@ Definition track_of (video : bool) (timescale : N) (tb : tables) : C11Model.trac
 (* a track of the input file: (is video, timescale, tables) *)
 Definition itrack := (bool * N * tables)%type.
 Definition itrack_of (t : itrack) : C11Model.track := track_of (fst (fst t)) (snd (fst t)) (snd t).
+
+(* a sample of the fragmented side (C11Model.fsample, where fs_data stands for Size + Data) as the mp4.FullSample
+   Fragment.GetFullSamples returns and AddFullSampleToTrack takes: Size = len(Data) *)
+Definition to_full (s : C11Model.fsample) : fullsample :=
+  mkFull (mkSample (C11Model.fs_flags s) (C11Model.fs_dur s) (lenN (C11Model.fs_data s)) (C11Model.fs_cto s))
+         (C11Model.fs_dts s) (C11Model.fs_data s).
+
+(* the output pieces that hold samples (Resegment's first segment is empty when the first sample already lies
+   beyond the first boundary) *)
+Definition nonempty_pieces {A} (segs : list (list A)) : list (list A) :=
+  filter (fun seg => match seg with [] => false | _ => true end) segs.
+
+(* decode times and durations are uint64/uint32 values whose sums do not wrap *)
+Definition times_fit (ss : list C11Model.fsample) : Prop :=
+  Forall (fun s => C11Model.fs_dts s + C11Model.fs_dur s < 18446744073709551616) ss.
